@@ -19,8 +19,11 @@ def text(p):
             f"why_tests_cant: {p['why_tests_cant']}\nanchors: {json.dumps(p['anchors'])}")
 
 
-M = open("/verif/selftest/prompts/round5_mutants.tmpl").read()
-R = open("/verif/selftest/prompts/round5_refactors.tmpl").read()
+import os
+
+TMPL = os.environ.get("ROUND_TMPL", "round5")  # ROUND_TMPL=round7 selects the modernisation-flavoured prompts
+M = open(f"/verif/selftest/prompts/{TMPL}_mutants.tmpl").read()
+R = open(f"/verif/selftest/prompts/{TMPL}_refactors.tmpl").read()
 for i in range(10):
     a, b = props[i], props[10 + (i + off) % 10]
     for kind, tmpl in (("m", M), ("r", R)):
